@@ -107,6 +107,7 @@ def run_beam(surface, nodes, sec, loads):
     return prob
 
 
+LBGS_MAXITER = 300
 KRYLOV_PRECON = False     # with the LinearRunOnce preconditioner GMRES stagnates in forward mode on the unmodified code
 
 
@@ -178,7 +179,7 @@ def build_aerostruct(surfaces, flows, nonlinear="nlbgs", linear="direct", aitken
         else:
             coupled.nonlinear_solver = om.NonlinearBlockGS(use_aitken=aitken, maxiter=200, atol=1e-11, rtol=1e-13, iprint=-1)
         if linear == "lbgs":
-            coupled.linear_solver = om.LinearBlockGS(maxiter=300, atol=1e-12, rtol=1e-10, iprint=-1, err_on_non_converge=True, use_aitken=True)
+            coupled.linear_solver = om.LinearBlockGS(maxiter=LBGS_MAXITER, atol=1e-12, rtol=1e-10, iprint=-1, err_on_non_converge=True, use_aitken=True)
         elif linear == "krylov":
             coupled.linear_solver = om.ScipyKrylov(maxiter=2000, atol=1e-12, rtol=1e-10, iprint=-1, err_on_non_converge=True, restart=200)
             coupled.linear_solver.precon = om.LinearRunOnce() if KRYLOV_PRECON else None
